@@ -21,8 +21,8 @@
 (* Cases are states: (ast, typing, outcome vector) with the expected log.    *)
 EXTENDS Integers, Sequences, FiniteSets, TLC, Json, IOUtils
 
-CONSTANTS MaxLeaves,  \* bound on the number of leaves of a case
-          MaxLeaves2, \* bound on the number of leaves of two-level expressions
+CONSTANTS MaxLeaves,  \* bound on the number of leaves of one-level expressions
+          MaxLeaves2, \* bound on the number of leaves of two-level expressions and of statements
           Mod,        \* sub-sampling of the two-level expressions and statements: structural hash % Mod = Rem
                       \* (Rem = IOEnv.C20_REM, set by the harness from the seed)
           Typings,    \* subset of {"O", "I", "M"}
@@ -130,7 +130,7 @@ TIdx == {VLeaf, Nd("not", <<VLeaf>>), Nd("in", <<VLeaf, Nm("P")>>), Nd("add", <<
 TCont == {CLeaf, Nm("P"), Nm("Q"), Nd("getitem", <<CLeaf, VLeaf>>), Nd("getattr", <<CLeaf>>), CallN(<<>>, <<CLeaf>>)}
 TargetsM == {t \in {Nd("tN", <<>>)} \cup {Nd("tsub", <<c, i>>) : c \in TCont, i \in TIdx} \cup {Nd("tattr", <<c>>) : c \in TCont} \cup
                    {Nd("tslice", <<c, i, j>>) : c \in {CLeaf, Nm("P")}, i \in {VLeaf, Nd("not", <<VLeaf>>)}, j \in {VLeaf, Nd("lt", <<VLeaf, VLeaf>>)}}
-             : NL(t) <= MaxLeaves - 1}
+             : NL(t) <= MaxLeaves2 - 1}
 Targets1 == {t \in TargetsM : NL(t) <= 1}
 Targets0 == {Nd("tN", <<>>), Nd("tsub", <<Nm("P"), VLeaf>>), Nd("tsub", <<Nm("Q"), VLeaf>>), Nd("tsub", <<CLeaf, VLeaf>>),
              Nd("tattr", <<CLeaf>>), Nd("tattr", <<Nm("P")>>), Nd("tsub", <<Nm("P"), Nd("not", <<VLeaf>>)>>),
@@ -151,7 +151,7 @@ Stmts ==
   (IF "unpack" \in Tops THEN {Nd("unpack", <<t1, t2, r>>) : t1 \in Targets0, t2 \in Targets0, r \in UnpackRhs} ELSE {})
 
 \* one-level expressions are always all included; the other families are sub-sampled
-Cases == {s \in Stmts : NL(s) >= 1 /\ NL(s) <= MaxLeaves /\ ((s.t = "ret" /\ s.a[1] \in E1) \/ Sel(s))}
+Cases == {s \in Stmts : NL(s) >= 1 /\ NL(s) <= (IF s.t = "ret" /\ s.a[1] \in E1 THEN MaxLeaves ELSE MaxLeaves2) /\ ((s.t = "ret" /\ s.a[1] \in E1) \/ Sel(s))}
 
 ---------------------------------------------------------------------------
 (* leaf paths: the root has path 0, child j of the node at path p has path 8p+j *)
